@@ -28,10 +28,6 @@ Proof.
   - intros H. exists v. split; [exact H|apply vec_eqb_eq; reflexivity].
 Qed.
 
-(* the vectors a check compares: the care set, or every vector of the right length *)
-Definition compared (k : nat) (care : option (list (list bool))) (v : list bool) : Prop :=
-  match care with Some K => In v K | None => length v = k end.
-
 Lemma compared_In k care v : compared k care v -> In v (step_vectors k care).
 Proof.
   destruct care as [K|]; simpl; [tauto|]. intros <-. apply all_bool_vectors_complete.
@@ -124,9 +120,11 @@ Section Subst.
     (forall l g, dget (gates old) l = Some g -> ~ In l r -> forall o, In o (gops g) -> ~ In o rint) /\
     check_step old new leaves outs care = true.
   Proof.
-    unfold check_subst, check_frame in Hcheck. fold r rint s in Hcheck.
+    unfold check_subst, check_frame in Hcheck.
     apply andb_true_iff in Hcheck. destruct Hcheck as [Hf Hs].
+    apply andb_true_iff in Hf. destruct Hf as [Hf _].
     apply andb_true_iff in Hf. destruct Hf as [Hf H].
+    unfold frame_below in Hf. unfold frame_users in H. fold r rint s in Hf, H.
     apply andb_true_iff in Hf. destruct Hf as [Hf H0].
     apply andb_true_iff in Hf. destruct Hf as [Hf H1].
     unfold closedb in H1. rewrite forallb_forall in Hf, H, H0, H1.
@@ -204,6 +202,23 @@ Section Subst.
   Qed.
 End Subst.
 
+Lemma check_subst_scope old new leaves outs care :
+  check_subst old new leaves outs care = true ->
+  inputs new = inputs old /\ outputs new = outputs old /\
+  forall o, In o (outputs old) -> ~ In o (replaced_internal old new outs).
+Proof.
+  unfold check_subst, check_frame, frame_scope. intros H.
+  apply andb_true_iff in H. destruct H as [H _].
+  apply andb_true_iff in H. destruct H as [_ H].
+  apply andb_true_iff in H. destruct H as [H _].
+  apply andb_true_iff in H. destruct H as [H H3].
+  apply andb_true_iff in H. destruct H as [H1 H2].
+  apply labels_eqb_eq in H1. apply labels_eqb_eq in H2.
+  split; [congruence|]. split; [congruence|].
+  intros o Ho. rewrite forallb_forall in H3. specialize (H3 o Ho).
+  apply negb_true_iff in H3. apply memb_nIn; exact H3.
+Qed.
+
 (* The care-set substitution theorem, validator form.  old, new: the circuit before and
    after a replacement step; leaves: the cut; outs: the replaced cone outputs (same labels
    before and after).  If check_subst accepts, then under every assignment a for which the
@@ -216,3 +231,18 @@ Theorem care_set_substitution old new leaves outs care a :
              Forall2 (fun l b => Eval old a l (inj b)) leaves v) ->
   forall l v, ~ In l (replaced_internal old new outs) -> Eval old a l v -> Eval new a l v.
 Proof. intros Hc Hv l v. apply (surviving_gates_stable old new leaves outs care Hc a Hv). Qed.
+
+(* consequence for the interface: same inputs, same outputs, and every circuit output keeps
+   its value - an accepted step preserves the function of the circuit on those assignments *)
+Theorem accepted_step_preserves_outputs old new leaves outs care :
+  check_subst old new leaves outs care = true ->
+  inputs new = inputs old /\ outputs new = outputs old /\
+  forall a,
+    (exists v, compared (length leaves) care v /\
+               Forall2 (fun l b => Eval old a l (inj b)) leaves v) ->
+    forall o v, In o (outputs old) -> Eval old a o v -> Eval new a o v.
+Proof.
+  intros Hc. destruct (check_subst_scope _ _ _ _ _ Hc) as (Hi & Ho & Hs).
+  split; [exact Hi|]. split; [exact Ho|].
+  intros a Hv o v Hin. apply (care_set_substitution _ _ _ _ _ _ Hc Hv). apply Hs; exact Hin.
+Qed.
